@@ -9,9 +9,11 @@ import (
 	"os"
 	"os/exec"
 	"path/filepath"
+	"runtime"
 	"strings"
 	"sync"
 	"sync/atomic"
+	"time"
 
 	"github.com/rogpeppe/go-internal/diff"
 
@@ -21,6 +23,67 @@ import (
 type kase struct {
 	Old []byte `json:"old"`
 	New []byte `json:"new"`
+	// Next*: a later call; the result for (Old, New) is inspected again after it
+	// (a result must not share storage with anything a later call writes to)
+	NextOld []byte `json:"next_old,omitempty"`
+	NextNew []byte `json:"next_new,omitempty"`
+	Seq     bool   `json:"sequence,omitempty"`
+	// Concurrent: several goroutines call Diff at the same time
+	Concurrent bool `json:"concurrent,omitempty"`
+}
+
+// concurrentProbe: Diff has no documented shared state, so concurrent callers
+// must not disturb each other. Eight goroutines diff fixed pairs and verify
+// every result; it runs until a failure shows or for at most two seconds of
+// calls. Correct code can never fail it (each verification is of a pure result).
+var quiet sync.RWMutex
+
+func concurrentProbe() *kit.V {
+	pairs := [][2]string{{"a\nb\nc\n", "a\nB\nc\n"}, {"l0\nl1\nl2\nl3\nl4\nl5\nl6\nl7\nl8\n", "r0\nl1\nl2\nl3\nl4\nl5\nl6\nl7\nr8"}, {"", "x\ny\n"}, {"p\nq\n", "q\n"}}
+	var bad atomic.Value
+	var wg sync.WaitGroup
+	deadline := time.Now().Add(2 * time.Second)
+	for g := 0; g < 8; g++ {
+		wg.Add(1)
+		go func(g int) {
+			defer wg.Done()
+			for i := 0; time.Now().Before(deadline) && bad.Load() == nil; i++ {
+				p := pairs[(g+i)%len(pairs)]
+				out, pan := diffSafe([]byte(p[0]), []byte(p[1]))
+				if pan != nil {
+					continue
+				}
+				runtime.Gosched()
+				if msg, _ := verify([]byte(p[0]), []byte(p[1]), out); msg != "" {
+					bad.Store(fmt.Sprintf("with 8 goroutines calling Diff at the same time, Diff(%q, %q) = %q: %s", p[0], p[1], out, msg))
+				}
+			}
+		}(g)
+	}
+	wg.Wait()
+	if b := bad.Load(); b != nil {
+		return &kit.V{Key: "concurrent-callers-interfere", What: b.(string), Case: kase{Concurrent: true}}
+	}
+	return nil
+}
+
+// checkSequence: Diff(old,new), keep the result, Diff(nextOld,nextNew), then the
+// kept result must be unchanged.
+func checkSequence(old, new, nextOld, nextNew []byte) []kit.V {
+	out, pan := diffSafe(old, new)
+	if pan != nil || out == nil {
+		return nil
+	}
+	cp := append([]byte(nil), out...)
+	diffSafe(nextOld, nextNew)
+	if string(cp) != string(out) {
+		return []kit.V{{
+			Key:  fmt.Sprintf("result-changed-by-later-call old=%s new=%s", kit.Q(old), kit.Q(new)),
+			What: fmt.Sprintf("Diff(%q, %q) returned %q; after a later call Diff(%q, %q) the same slice reads %q", old, new, cp, nextOld, nextNew, out),
+			Case: kase{Old: append([]byte(nil), old...), New: append([]byte(nil), new...), NextOld: append([]byte(nil), nextOld...), NextNew: append([]byte(nil), nextNew...), Seq: true},
+		}}
+	}
+	return nil
 }
 
 func diffSafe(old, new []byte) (out []byte, pan any) {
@@ -49,7 +112,7 @@ func checkPair(old, new []byte) (vs []kit.V, hunks int) {
 		vs = append(vs, kit.V{
 			Key:  fmt.Sprintf("%s old=%s new=%s", class, kit.Q(old), kit.Q(new)),
 			What: fmt.Sprintf("Diff(%q, %q) = %q: %s", old, new, out, msg),
-			Case: kase{append([]byte(nil), old...), append([]byte(nil), new...)},
+			Case: kase{Old: append([]byte(nil), old...), New: append([]byte(nil), new...)},
 		})
 	}
 	return vs, hunks
@@ -244,6 +307,15 @@ func main() {
 		if err := json.Unmarshal(raw, &c); err != nil {
 			kit.Harness("bad case: %v", err)
 		}
+		if c.Seq {
+			return checkSequence(c.Old, c.New, c.NextOld, c.NextNew)
+		}
+		if c.Concurrent {
+			if v := concurrentProbe(); v != nil {
+				return []kit.V{*v}
+			}
+			return nil
+		}
 		vs, _ := checkPair(c.Old, c.New)
 		return vs
 	}
@@ -268,13 +340,13 @@ func main() {
 		pairFamily(fmt.Sprintf("all pairs of texts <= %d lines over {a,b,c,d,e}", pick(3, 4)), texts([]string{"a", "b", "c", "d", "e"}, pick(3, 4))),
 		pairFamily(fmt.Sprintf("all pairs of texts <= %d lines over {a,b}", pick(7, 9)), texts([]string{"a", "b"}, pick(7, 9))),
 		pairFamily("all pairs of texts <= 3 lines of diff-syntax look-alikes", texts([]string{"a", "-a", "+a", " a", "@@ -1 +1 @@", "@@ -1,1 +1,1 @@", `\ No newline at end of file`, "--- old", "+++ new", ""}, pick(2, 3))),
-		pairFamily(fmt.Sprintf("all pairs of texts <= %d lines whose content must pass through untouched (format verbs, backslashes, tab, CR, NUL, invalid UTF-8)", pick(2, 3)), texts([]string{"%", "%d %s", "%%", "100%", `\\n`, `\\`, "\t", "a\r", "\x00", "\xff\xfe", "é", "%!d(MISSING)"}, pick(2, 3))),
+		pairFamily(fmt.Sprintf("all pairs of texts <= %d lines whose content must pass through untouched (format verbs, backslashes, tab, CR, NUL, invalid UTF-8)", pick(2, 3)), texts([]string{"%", "%d %s", "%%", "100%", `\\n`, `\\`, "\t", "a\r", "a", "\r", "\x00", "\xff\xfe", "é", "%!d(MISSING)"}, pick(2, 3))),
 		editFamily(fmt.Sprintf("edit scripts (keep/delete/replace/insert per line) over %d distinct lines", pick(10, 12)), pick(10, 12), []uint{0}),
 		editFamily(fmt.Sprintf("edit scripts over %d lines, every subset of positions replaced by a repeated filler line", pick(7, 8)), pick(7, 8), allDups(pick(7, 8))),
 		sparseFamily(fmt.Sprintf("one of delete/replace/insert at every choice of <= %d positions among %d distinct lines", pick(3, 4), pick(24, 30)), pick(24, 30), pick(3, 4)),
 		editFamily(fmt.Sprintf("edit scripts over %d lines with filler at alternating positions", pick(9, 10)), pick(9, 10), []uint{0x155, 0x2aa, 0x1c7, 0x38}),
 	}
-	var evals, unequal int64
+	var evals, unequal, aliased, unreproducible int64
 	hunkHist := make([]int64, 8)
 	nw := r.Workers()
 	var famNames []string
@@ -286,6 +358,7 @@ func main() {
 			go func(w int) {
 				defer wg.Done()
 				var n int64
+				var prevOld, prevNew, prevOut, prevCopy []byte
 				fam.each(w, nw, func(old, new []byte) {
 					n++
 					if n&0x3fff == 0 && r.Expired() {
@@ -295,9 +368,37 @@ func main() {
 						return
 					}
 					atomic.AddInt64(&evals, 1)
+					quiet.RLock()
 					vs, h := checkPair(old, new)
+					quiet.RUnlock()
+					if len(vs) > 0 {
+						// Diff is a pure function: a failure must show again at once. If it does
+						// not, the result was disturbed by other callers (shared state inside the
+						// package); the concurrent-callers probe below decides that.
+						quiet.Lock() // no other caller of Diff is running now
+						again, _ := checkPair(old, new)
+						quiet.Unlock()
+						if len(again) == 0 {
+							atomic.AddInt64(&unreproducible, 1)
+							vs = nil
+						}
+					}
 					for _, v := range vs {
 						r.Violation(v.Key, v.What, v.Case)
+					}
+					// the result of the previous call must not have been touched by this one
+					if prevOut != nil && string(prevOut) != string(prevCopy) {
+						for _, v := range checkSequence(prevOld, prevNew, old, new) {
+							r.Violation(v.Key, v.What, v.Case)
+						}
+						atomic.AddInt64(&aliased, 1)
+					}
+					if n%64 == 0 {
+						quiet.RLock()
+						prevOld, prevNew = append(prevOld[:0], old...), append(prevNew[:0], new...)
+						prevOut, _ = diffSafe(old, new)
+						prevCopy = append(prevCopy[:0], prevOut...)
+						quiet.RUnlock()
 					}
 					if string(old) != string(new) {
 						c := atomic.AddInt64(&unequal, 1)
@@ -325,6 +426,12 @@ func main() {
 	r.Set("rule", "every ordered pair of each family (families overlap only in tiny texts); non-trivial = old != new, counted")
 	r.Set("families", famNames)
 	r.Set("pairs_by_number_of_hunks", hunkHist)
+	if v := concurrentProbe(); v != nil {
+		r.Violation(v.Key, v.What, v.Case)
+	} else if unreproducible > 0 && r.Violations() == 0 {
+		kit.Harness("%d verification failures did not repeat when the same pair was diffed again, and the concurrent-callers probe found nothing", unreproducible)
+	}
+	r.Set("results_found_modified_by_a_later_call", aliased)
 	r.Set("exhaustive", !r.Capped())
 	r.Assume("the unified-diff conventions checked are those of GNU diff/patch: 1-based start lines, start = preceding line for an empty range, '\\ No newline at end of file' binds to the line before it")
 	r.Finish()
@@ -363,7 +470,7 @@ func patchStride(r *kit.Run, fam family, stride int64) {
 		if err != nil || string(res) != string(new) {
 			r.Violation(fmt.Sprintf("patch(1)-disagrees old=%s new=%s", kit.Q(old), kit.Q(new)),
 				fmt.Sprintf("patch(1) applied Diff(%q,%q)=%q: err=%v output=%q result=%q", old, new, out, err, msg, res),
-				kase{old, new})
+				kase{Old: old, New: new})
 		}
 	})
 	r.Set("pairs_also_applied_with_patch(1)", done)
